@@ -4,6 +4,7 @@ go 1.14
 
 require (
 	github.com/Comcast/rulio v0.0.0
+	github.com/robertkrimen/otto v0.0.0-20191219234010-c382bd3c16ff
 	gopkg.in/yaml.v2 v2.3.0
 )
 
